@@ -17,14 +17,15 @@
      words_ok, no deprecated/template/include objects) the printed text parses, and the re-parsed tree has the
      same names, nesting, order, disabled marks, merge flags, word texts and quote styles (and empty attribute
      lists); printing the re-parsed tree gives byte-identical text (C01_tree_level0, C01_text_fixpoint_level0);
-   - attributes level 3 for trees whose attributes are the bool / int ones (C01_tree_level3_partial).
+   - attributes level 3 for trees whose attributes are the bool / int ones (C01_tree_level3_partial), and levels 3 and 2
+     for string-valued attributes that are not re-flowed (C01_tree_level3_strings, C01_tree_level2_strings).
    - EVERY PARSED DOCUMENT without deprecated definitions and include lines lies in dtree_ok, hence for every
      such text: parse, print at level 0 (any width), parse again gives the same tree (C01_parsed_trees_in_domain,
      C01_parse_print_parse_level0) - the property's own quantifier "for every PHIL text that parses".
-   Decided by correspondence + oracle only (every run): string-valued attributes (wrapped help text), .type,
+   Decided by correspondence + oracle only (every run): re-flowed (wrapped) string attributes, .type,
    .call, levels 1/2 views, deprecated definitions, dotted names at level 3. *)
 From Coq Require Import List Ascii String ZArith.
-From Phil Require Import Base Tokenizer Tree Parser Show QuoteProofs WordsRoundtrip ShowErase TreeRoundtrip ParserShape.
+From Phil Require Import Base Tokenizer Tree Parser Show QuoteProofs WordsRoundtrip ShowErase TreeRoundtrip ParserShape ShowReparse ShowReparseAttrs.
 Import ListNotations.
 
 Theorem C01_quoted_word_roundtrip : forall q s rest line,
@@ -89,6 +90,25 @@ Theorem C01_tree_level3_partial : forall o l w text,
   exists l', parse o text = Ok l' /\ map erase_obj l' = map erase3 l.
 Proof. exact parse_as_str_level3. Qed.
 Print Assumptions C01_tree_level3_partial.
+
+(* attributes levels 3 and 2 with string-valued attributes (.help .caption .short_caption .style .alias holding any
+   characters - blanks, quotes, backslashes, newlines) that fit on their printed line, i.e. are not re-flowed
+   (stree_ok, Proofs/ShowReparseAttrs.v; it contains atree_ok): the re-parsed tree has the same names, nesting,
+   order, disabled marks, words and the same value for every attribute.  Level 2 gives the same tree as level 3
+   (no deprecated definition in the domain).  Re-flowed (wrapped) texts are compared up to whitespace by the stream. *)
+Theorem C01_tree_level3_strings : forall o l w text,
+  forallb (stree_ok (width_of w) []) l = true ->
+  as_str l [] None 3 w = Ok text ->
+  exists l', parse o text = Ok l' /\ map erase_obj l' = map erase3 l.
+Proof. exact parse_as_str_level3_strings. Qed.
+Print Assumptions C01_tree_level3_strings.
+
+Theorem C01_tree_level2_strings : forall o l w text,
+  forallb (stree_ok (width_of w) []) l = true ->
+  as_str l [] None 2 w = Ok text ->
+  exists l', parse o text = Ok l' /\ map erase_obj l' = map erase3 l.
+Proof. exact parse_as_str_level2_strings. Qed.
+Print Assumptions C01_tree_level2_strings.
 
 (* the simpler brace-only domain is contained in dtree_ok *)
 Theorem C01_domain_contains_plain_trees : forall o, tree_ok o = true -> dtree_ok [] o = true.
